@@ -20,7 +20,8 @@ from harness import log
 
 
 class Unit:
-    def __init__(self, name, groups=(), props=(), corr=(), oracle=None, thorough_props=(), note=''):
+    def __init__(self, name, groups=(), props=(), corr=(), oracle=None, thorough_props=(), note='',
+                 findings=(), always_oracle=False):
         self.name = name
         self.groups = list(groups)
         self.props = list(props)              # coq/props files (relative to coq/)
@@ -28,6 +29,11 @@ class Unit:
         self.corr = list(corr)                # list of dicts: gen, pfx, n, spec, rt
         self.oracle = oracle                  # callable(rng, tier, reason) -> list of failing-input dicts
         self.note = note
+        # findings: dicts {id, refuted: props file with the machine-checked refutation, pending: file with the
+        #   positive theorem (compiles only once the defect is repaired), replay: callable() -> dict or None
+        #   (re-runs the witness on the REAL implementation; returns the observed failure or None)}
+        self.findings = list(findings)
+        self.always_oracle = always_oracle    # no theorem covers this unit: the oracle is its only check (class C)
 
 
 def load_known(prop):
@@ -86,7 +92,7 @@ def run_units(report, units, tier, rng, extra_after=None):
     for u in units:
         if any(g in bad_groups for g in u.groups):
             continue
-        fl = u.props + (u.thorough_props if tier == 'thorough' else [])
+        fl = u.props + (u.thorough_props if tier == 'thorough' else []) + [fd['refuted'] for fd in u.findings]
         prop_files += fl
         targets += [f[:-2] + '.vo' for f in fl]
         targets += [f[:-2] + '.vo' for f in case_files.get(u.name, [])]
@@ -126,9 +132,44 @@ def run_units(report, units, tier, rng, extra_after=None):
                     reasons.append({'kind': 'correspondence', 'what': f, 'detail': bad_files.get(f, '')[-1500:]})
             if u.name in corr_disagree:
                 reasons.append({'kind': 'correspondence', 'what': 'model vs implementation', 'detail': corr_disagree[u.name][:5]})
+            known_ids = set(k['id'] for k in load_known(report.prop))
+            for fd in u.findings:
+                vo = fd['refuted'][:-2] + '.vo'
+                thms = H.theorems_in(fd['refuted'])
+                if vo in ok:
+                    for th in thms:
+                        report.oblige(th, 'refutation-theorem', True, fd['refuted'])
+                    try:
+                        obs = fd['replay']()
+                    except Exception as ex:
+                        obs = None
+                        report.extra.setdefault('replay_errors', []).append('%s: %r' % (fd['id'], ex))
+                    if obs is not None and fd['id'] in known_ids:
+                        report.known.append('%s %s' % (fd['id'], fd['what']))
+                        report.samples.append({'known_finding': fd['id'], 'observed_on_real_code': obs})
+                    elif obs is not None:
+                        reasons.append({'kind': 'finding-not-listed', 'what': fd['id'], 'detail': obs})
+                    else:
+                        reasons.append({'kind': 'correspondence', 'what': fd['id'],
+                                        'detail': 'refutation theorem holds for the model but its witness does not fail on the real code'})
+                else:
+                    # the refutation no longer compiles: repaired, or changed into something else
+                    pend_ok = False
+                    if fd.get('pending'):
+                        H.clean_stale([fd['pending']])
+                        ok2, miss2, bad2, out2 = H.coq_make([fd['pending'][:-2] + '.vo'])
+                        pend_ok = not miss2
+                    if pend_ok:
+                        report.oblige(fd['id'] + ':positive-theorem', 'theorem', True, fd['pending'])
+                        report.extra.setdefault('resolved_findings', []).append(fd['id'])
+                    else:
+                        for th in thms:
+                            report.oblige(th, 'refutation-theorem', False, fd['refuted'])
+                        reasons.append({'kind': 'proof', 'what': fd['refuted'],
+                                        'detail': 'neither the recorded refutation nor the positive theorem checks: ' + bad_files.get(fd['refuted'], '')[-1200:]})
         if reasons:
             handle_failure(report, u, reasons, tier, rng)
-        elif tier == 'thorough' and u.oracle:
+        elif (tier == 'thorough' or u.always_oracle) and u.oracle:
             # cross-check of the unmodelled glue around the proved core
             try:
                 fails = u.oracle(rng, tier, None)
